@@ -295,10 +295,31 @@ def run(repo, chk):
         last = em[-1]
         chk.expect(gf.ctor_kind(ev, ev.index(last)) == ('tbl', 'arith_map') and [src(a) for a in last.args] == ['r_out', 'arg_left', 'arg_right'],
                    'C09.M2', 'arith_op_reg_arg::instruction', f'{last.short()}', GEN)
-    is_safe = gf.methods['is_safe']
-    rets = [src(n.value) for n in ast.walk(is_safe) if isinstance(n, ast.Return)]
-    chk.expect(rets == ['isinstance(expr, ast.PrimitiveValue) or isinstance(expr, ast.VariableLookup)'], 'C09.M2', 'is_safe',
-               f'only literals and plain variable reads are free of side effects: {rets}', GEN)
+    # is_safe tabulated over one instance of every expression class (interpreted): only literals and plain variable reads
+    genmod = it.load(GEN)
+    astns = it.load('hidc/ast/__init__.py')
+    CGc = genmod['CodeGen']
+    stub_self = object.__new__(CGc)
+    stub_self.unchecked = False
+    safe_true, safe_err = [], None
+    n_cls = 0
+    for cname, cls_ in sorted(astns.items()):
+        if isinstance(cls_, type) and issubclass(cls_, astns['Expression']) and cls_ is not astns['Expression']:
+            try:
+                inst = object.__new__(cls_)
+            except TypeError:
+                continue
+            n_cls += 1
+            try:
+                if stub_self.is_safe(inst):
+                    safe_true.append(cname)
+            except Exception as e:      # noqa
+                safe_err = f'{cname}: {type(e).__name__}: {e}'
+    want_safe = sorted(c for c, k in astns.items() if isinstance(k, type) and
+                       (issubclass(k, astns['PrimitiveValue']) or issubclass(k, astns['VariableLookup'])))
+    chk.expect(safe_err is None and sorted(safe_true) == want_safe, 'C09.M2', 'is_safe',
+               f'is_safe accepts {sorted(safe_true)}; only literals and plain variable reads ({want_safe}) can be evaluated without '
+               f'touching registers or globals {safe_err or ""}', GEN)
 
     # ---------------- M3 -------------------------------------------------------------------
     for p, ev in gf.inlined('un_op_reg_arg'):
@@ -360,19 +381,17 @@ def run(repo, chk):
         'IndirectByte': ("self.section.lbo(r_out, self.base, self.offset)", "self.section.sbo(self.base, self.offset, source)"),
     }
     for cls, (g, s_) in acc.items():
-        c = repo.find_class(ASM, cls)
-        ms = {n.name: n for n in c.body if isinstance(n, ast.FunctionDef)}
-        gy = [src(n.value) for n in ast.walk(ms['get']) if isinstance(n, ast.Yield)] if 'get' in ms else []
+        ms = repo.methods(ASM, cls)
+        gy =[src(n.value) for n in ast.walk(ms['get']) if isinstance(n, ast.Yield)] if 'get' in ms else []
         gr = [src(n.value) for n in ast.walk(ms['get']) if isinstance(n, ast.Return)] if 'get' in ms else []
         chk.expect(gy == [g] and gr == ['State(r_out)'], 'C09.M4', f'{cls}.get', f'{gy} -> {gr}', ASM)
         if s_:
             sy = [src(n.value) for n in ast.walk(ms['set']) if isinstance(n, ast.Yield)] if 'set' in ms else []
             chk.expect(sy == [s_], 'C09.M4', f'{cls}.set', f'{sy}', ASM)
-    stc = repo.find_class(ASM, 'State')
-    sset = [n for n in stc.body if isinstance(n, ast.FunctionDef) and n.name == 'set']
+    sset = [n for k, n in repo.methods(ASM, 'State').items() if k == 'set']
     chk.expect(bool(sset) and 'yield Mov(self.immed, source)' in src(sset[0]) and 'if source != self' in src(sset[0]), 'C09.M4',
                'State.set', 'Mov unless the source is the slot itself', ASM)
-    to = [n for n in repo.find_class(ASM, 'Accessor').body if isinstance(n, ast.FunctionDef) and n.name == 'to']
+    to = [n for k, n in repo.methods(ASM, 'Accessor').items() if k == 'to']
     chk.expect(bool(to) and 'result = (yield from self.get(r_out))' in src(to[0]) and 'yield from State(r_out).set(result)' in src(to[0]),
                'C09.M4', 'Accessor.to', 'get then move into the register', ASM)
     for p, ev in gf.inlined('eval_expr'):
